@@ -38,6 +38,7 @@ def run(rep, tier):
         objects.check_asdict(tree, what, bad)
         objects.check_replace(tree, what, bad)
         ng = objects.check_getattr_safety(tree, what, bad)
+        ng += objects.check_copy_hooks(tree, what, bad)
         nn = objects.check_node_classes(tree, what, bad)
         objects.check_metadata(tree, what, bad)
         found[:] = [(r, m) for r, m in found if r != 'C16-metadata']     # transform's concern (C16)
